@@ -53,6 +53,7 @@ def run(tier):
                      "ORDER choices are explored up to the stated deviation bound; parallel_reduce outcomes are always complete per call",
                      "TSan happens-before detection on the finest partition (one thread per index)"]
     b = builds()
+    c.builds_done()
     conformance(c, tier)
     ex = b["sched_tbb"]
     plan = []
